@@ -120,6 +120,9 @@ extern "C" fn on_fatal(sig: i32) {
 }
 
 pub fn install_crash_marker() {
+    if cfg!(miri) {
+        return; // no signal() under Miri; Miri reports UB itself
+    }
     unsafe {
         for sig in [6, 11, 4, 7, 8] {
             signal(sig, on_fatal as *const () as usize);
